@@ -7,6 +7,7 @@ import c02
 
 CONFIGS = ['prod']
 EXPLANATION = (
+    'P6: the state codec adds nothing of its own — OrSWotSet::from_bytes returns exactly what the validating deserialiser produced (nothing is called on it, no field rewritten; a refusal is an error) and as_bytes hands the set as it is to the serialiser. '
     'SEM (primary): purge_old_deletes / will_apply / merge / diff / the mutators summarised by abstract interpretation (purge removes and returns exactly t'
     'he tombstones before the cut-off and touches nothing else; will_apply refuses before the cut-off); VSEM: cut-off = min over all sources (missing = zer'
     'o) minus the forgiveness constant, strict predicate; P4: the purge handler against every storage answer. Structural fallback: '
@@ -56,6 +57,9 @@ def field_names(facts, adt):
 def check(ctx):
     facts = ctx.facts('prod')
     cg = CallGraph(facts)
+    # P6: the purge cut-offs travel with the state: the decode entry point does not rebuild or drop them (codec_abs)
+    import codec_abs
+    codec_abs.check_state_codec(ctx, facts, 'C08.P6')
     purge = facts.body(OS + 'purge_old_deletes')
     if purge is None:
         ctx.bad('C08.P1', 'anchor', '', 'purge_old_deletes not found (fail closed)')
